@@ -49,14 +49,23 @@ SUB_H, SUB_I, SUB_G = "history", "integral", "integral_generic"
 # ----------------------------------------------------------------------------------------------------------------
 # named callables for the classes that wrap user code (JSON cases carry only the name)
 # ----------------------------------------------------------------------------------------------------------------
+def _add(values):
+    """plain left-to-right float addition. (The builtin sum() of Python >= 3.12 is compensated for sequences of exact
+    floats but not for numpy scalars, so a user function written with sum() is not a function of the point alone.)"""
+    acc = 0.0
+    for v in values:
+        acc = acc + float(v)
+    return acc
+
+
 SCALAR_FN = {
-    "sinsum": lambda x: math.sin(sum((k + 1) * v for k, v in enumerate(x))),      # not symmetric in the coordinates
-    "quad": lambda x: 1.0 + sum((k + 1) * v * v for k, v in enumerate(x)),
-    "expm": lambda x: math.exp(-0.5 * sum(v / (k + 1) for k, v in enumerate(x))),
-    "absum": lambda x: abs(sum(x) - 0.5),
+    "sinsum": lambda x: math.sin(_add((k + 1) * v for k, v in enumerate(x))),      # not symmetric in the coordinates
+    "quad": lambda x: 1.0 + _add((k + 1) * v * v for k, v in enumerate(x)),
+    "expm": lambda x: math.exp(-0.5 * _add(v / (k + 1) for k, v in enumerate(x))),
+    "absum": lambda x: abs(_add(x) - 0.5),
 }
 VECTOR_FN = {
-    "vec3": (3, lambda x: [sum(x), 2.0 * x[0], 1.0]),
+    "vec3": (3, lambda x: [_add(x), 2.0 * x[0], 1.0]),
     "vec2": (2, lambda x: np.array([x[0], math.cos(x[-1])])),
 }
 POLY_FN = {
@@ -354,6 +363,12 @@ def _run_history(case, factory):
 
     if not all(np.all(np.isfinite(r)) for r in refs):
         out.cls("non-finite-value")
+    def cause(involved, default):
+        # FunctionDiagonalDiscont.eval uses the builtin sum(): compensated for a tuple of floats, plain for an ndarray row
+        if cname == "FunctionDiagonalDiscont" and any((sum(q) < 1) != (_add(q) < 1) for q in involved):
+            return "FunctionDiagonalDiscont-builtin-sum-rounds-differently-for-float-tuple-and-ndarray-row"
+        return default
+
     maxdev = 0.0
     seen = set()          # model: distinct points passed to __call__ since the last reset
     caching = True
@@ -371,7 +386,7 @@ def _run_history(case, factory):
             if np.shape(got) != (ol,):
                 out.bad(SUB_H + "/shape/single", "%s: shape %s, expected (%d,)" % (tag, np.shape(got), ol))
             elif differs(np.asarray(got, float), want):
-                out.bad(SUB_H + "/value/single-%s" % ("cached" if was_cached and caching else "fresh"),
+                out.bad(SUB_H + "/value/" + cause([p], "single-%s" % ("cached" if was_cached and caching else "fresh")),
                         "%s: f(%s)=%s, fresh eval=%s" % (tag, p, got, want))
             if caching:
                 seen.add(p)
@@ -396,7 +411,7 @@ def _run_history(case, factory):
             elif plist:
                 want = np.array([refs[j] for j in idx])
                 if differs(np.asarray(got, float), want):
-                    out.bad(SUB_H + "/value/batch", "%s: got %s, fresh eval %s" % (tag, np.asarray(got).tolist(), want.tolist()))
+                    out.bad(SUB_H + "/value/" + cause(plist, "batch"), "%s: got %s, fresh eval %s" % (tag, np.asarray(got).tolist(), want.tolist()))
                 else:
                     maxdev = max(maxdev, reldev(got, want))
             if not plist:
@@ -418,7 +433,7 @@ def _run_history(case, factory):
             else:
                 got = got.reshape(want.shape)       # what the callers in GridOperation do
                 if differs(got.astype(float), want):
-                    out.bad(SUB_H + "/value/%s" % kind, "%s: eval_vectorized %s, fresh eval %s" % (tag, got.tolist(), want.tolist()))
+                    out.bad(SUB_H + "/value/" + cause([pts[j] for j in idx.ravel()], kind), "%s: eval_vectorized %s, fresh eval %s" % (tag, got.tolist(), want.tolist()))
                 else:
                     maxdev = max(maxdev, reldev(got, want))
         elif kind == "reset":
@@ -680,6 +695,16 @@ def history_strategy(tier):
         points = []
         for _ in range(npts):
             p = []
+            if spec["cls"] == "FunctionDiagonalDiscont" and d >= 2 and draw(st.booleans()):
+                # a point on the discontinuity surface sum(x) = 1, built from decimal fractions k/10
+                remaining = 10
+                for i in range(d - 1):
+                    k10 = draw(st.integers(1, remaining - (d - 1 - i)))
+                    remaining -= k10
+                    p.append(k10 / 10.0)
+                p.append(remaining / 10.0)
+                points.append(p)
+                continue
             for k in range(d):
                 choices = [_nice(lo[k], hi[k])]
                 if special[k]:
